@@ -180,6 +180,50 @@ type MessageBadEnum16Ext struct {
 
 func (*MessageBadEnum16Ext) GetID() uint32 { return 40 }
 
+// struct names the run-time cannot map to a message name (it drops the first character of what follows `Message`): nothing,
+// a lower-case letter, a digit, an underscore after the prefix
+type Message struct{ A uint8 }
+
+func (*Message) GetID() uint32 { return 44 }
+
+type Messagex struct{ A uint8 }
+
+func (*Messagex) GetID() uint32 { return 45 }
+
+type Message9 struct{ A uint8 }
+
+func (*Message9) GetID() uint32 { return 46 }
+
+type Message_ struct{ A uint8 } //nolint
+
+func (*Message_) GetID() uint32 { return 47 }
+
+// too big only when the extension fields are counted (the limit is on the whole payload): base 104, extensions 152 / 200
+type MessageBadTooBigExt struct {
+	A uint32
+	B [100]uint8
+	S string `mavext:"true" mavlen:"200"`
+}
+
+func (*MessageBadTooBigExt) GetID() uint32 { return 41 }
+
+type MessageBadTooBigExt1 struct {
+	A uint32
+	B [100]uint8
+	X [19]uint64 `mavext:"true"`
+}
+
+func (*MessageBadTooBigExt1) GetID() uint32 { return 42 }
+
+// base 104 + extensions 151 = 255: the largest struct with extensions that IS a definition
+type MessageUserMaxExt struct {
+	A uint32
+	B [100]uint8
+	X [151]int8 `mavext:"true"`
+}
+
+func (*MessageUserMaxExt) GetID() uint32 { return 43 }
+
 // the largest struct that IS a definition (255 bytes, array of 255): accepted and usable
 type MessageUserMax struct {
 	A [255]uint8
@@ -189,7 +233,8 @@ func (*MessageUserMax) GetID() uint32 { return 31 }
 
 var malformed = []message.Message{&MessageBadUnexp{}, &MessageBadStrArr{}, &MessageBadZeroArr{}, &MessageBadBigArr{}, &MessageBadTooBig{},
 	&MessageBadLenNeg{}, &MessageBadLenZero{}, &MessageBadLenBig{}, &MessageBadExtFirst{}, &MessageBadWide{}, &MessageBadExact{}, &MessageBadNamed{}, &MessageBadNamedEnum{},
-	&MessageBadEnum16{}, &MessageBadEnum16Plain{}, &MessageBadEnum64s{}, &MessageBadEnumDouble{}, &MessageBadEnumChar{}, &MessageBadEnumCType{}, &MessageBadEnum16Ext{}}
+	&MessageBadEnum16{}, &MessageBadEnum16Plain{}, &MessageBadEnum64s{}, &MessageBadEnumDouble{}, &MessageBadEnumChar{}, &MessageBadEnumCType{}, &MessageBadEnum16Ext{}, &MessageBadTooBigExt{}, &MessageBadTooBigExt1{},
+	&Message{}, &Messagex{}, &Message9{}, &Message_{}}
 
 // implDuse: first use of one message struct (init, write the zero value in both versions, read an empty and a full payload)
 func implDuse(t []string) (out string) {
@@ -203,15 +248,15 @@ func implDuse(t []string) (out string) {
 	if m == nil {
 		return "no-such-message"
 	}
-	rw := &message.ReadWriter{Message: m}
-	if err := rw.Initialize(); err != nil {
-		return "init-err"
-	}
 	defer func() {
 		if r := recover(); r != nil {
 			out = "panic"
 		}
 	}()
+	rw := &message.ReadWriter{Message: m}
+	if err := rw.Initialize(); err != nil {
+		return "init-err"
+	}
 	zero := reflect.New(reflect.TypeOf(m).Elem()).Interface().(message.Message)
 	rw.Write(zero, false)
 	rw.Write(zero, true)
@@ -243,7 +288,7 @@ func init() {
 		dialects[dn] = &dialect.Dialect{Version: 1, Messages: []message.Message{one, m}}
 		badDialects = append(badDialects, dn)
 	}
-	dialects["usermax"] = &dialect.Dialect{Version: 1, Messages: []message.Message{one, &MessageUserMax{}}}
+	dialects["usermax"] = &dialect.Dialect{Version: 1, Messages: []message.Message{one, &MessageUserMax{}, &MessageUserMaxExt{}}}
 	dialects["badboth2"] = &dialect.Dialect{Version: 1, Messages: []message.Message{one, one, &MessageBadBool{}}}
 }
 
